@@ -66,6 +66,9 @@ type Node struct {
 	lnd       *fakeLnd  // tier 2: the simulated LND behind the real adapter
 	lndInbox  *lndQueue // ... its custom-message subscription, if any
 	lndClient *lnd.Client
+	lwk        *fakeLwk // the simulated lwk behind the real LWK wallet, if selected
+	lwkCreated bool     // lwk's own persistent state: the wallet exists / which signer is loaded
+	lwkSigner  string
 	cln       *fakeCln // tier 3: the simulated lightningd behind the real clightning adapter
 	clnClient *clightning.ClightningClient
 	lndPending []inMsg
@@ -381,7 +384,14 @@ func (n *Node) boot() {
 	}
 	if liquidOn {
 		var lwal wallet.Wallet = n.LiquidWallet
-		if scn.RealLiquidWallet[n.ID] && scn.LiquidBackend[n.ID] != "lwk" {
+		if scn.RealLiquidWallet[n.ID] && scn.LiquidBackend[n.ID] == "lwk" {
+			rw, err := n.bootLwkWallet(ctx)
+			if err != nil {
+				fail("lwk wallet", err)
+				return
+			}
+			lwal = rw
+		} else if scn.RealLiquidWallet[n.ID] {
 			rw, err := n.bootElementsWallet()
 			if err != nil {
 				fail("elements wallet", err)
@@ -486,7 +496,7 @@ func (n *Node) Crash(restartMs int) {
 		n.lnd.release()
 	}
 	n.lnd, n.lndInbox, n.lndClient, n.lndPending = nil, nil, nil, nil
-	n.cln, n.clnClient = nil, nil
+	n.cln, n.clnClient, n.lwk = nil, nil, nil
 	n.Svc = nil
 	w.Observe(&Obs{Node: n.ID, Inc: n.inc, Kind: "crash"})
 	if restartMs >= 0 {
